@@ -242,11 +242,12 @@ func init() {
 	})
 	register(&Property{
 		ID:        "C09",
-		Technique: "static analysis: BLAS-gateway goals (every trans flag / leading dimension derives from a test of that operand's own state on every path) by path enumeration and implication; arm uniformity and precision-letter coherence of the typed BLAS arms; ownership analysis of scratch slices and recycled tensors",
+		Technique: "static analysis: BLAS argument conformance by per-path term propagation against a reference table derived from the row-major BLAS convention; BLAS-gateway goals (every trans flag / leading dimension derives from a test of that operand's own state on every path) by path enumeration and implication; arm uniformity and precision-letter coherence of the typed BLAS arms; ownership analysis of scratch slices and recycled tensors",
 		Explain: "Decides: (LB) on every path to a BLAS call in MatMul/MatVecMul/Outer the lazy-transpose state and data order of each operand were branched on (a flag taken from the wrong operand, or a merged test, is reported); (L1) whether the operands' need for an iterator was consulted at all (it is not: known finding 15); (K1arms/K3) the float32/float64/complex64/complex128 arms call the same routine with the same argument pattern and the right precision letter; (O3/O7/O8) axes arguments are not mutated, only function-local tensors are recycled (handleIncr guard), scratch access patterns are not aliases of an operand's. " +
-			"Not decided: that trans flags, lda/ldb/ldc and operand swapping make BLAS compute sum_k a_ik b_kj (value semantics of an external routine); rounding.",
+			"(LD) on every feasible path of MatVecMul, MatMul, Outer and Inner each argument of the gemv/gemm/ger/dot call - transposition flags, dimensions, leading dimensions, buffers, operand order - is the one the operand's data order, lazy-transpose state and logical shape require under the row-major BLAS convention (term propagation along the path against a derived reference; 41 layout cases); (P2) the gateways and their callers do not write their operands (Dot and Outer do: known findings 13, 14). Not decided: the routines themselves (trusted by name), the reshape/permutation arithmetic of TensorMul/Contract, Dot's dispatch table beyond delegation, rounding.",
 		Run: func(rc *rules.RC) {
 			rules.LGuards(rc, "C09")
+			rules.LD(rc, 40)
 			rules.K3(rc, fileFilter("defaultengine_linalg.go", "dense_linalg.go"), 3, 12)
 			lin := func(k string) bool {
 				for _, n := range []string{"Dot", "MatMul", "MatVecMul", "Outer", "Inner", "TensorMul", "Contract", "Trace", "handleIncr", "handleReuse"} {
@@ -318,11 +319,12 @@ func init() {
 	register(&Property{
 		ID:        "C16",
 		Technique: "static analysis: truth-table check of the data-order predicates and of the iterator decisions over all participants' orders; order-agreement goals on raw two-tensor accesses and exporters; BLAS-gateway order goals; stride-routine selection by order",
-		Explain: "Decides: (L0) IsColMajor/IsRowMajor/HasSameOrder are what they claim and prepDataVV/VS/SV/Unary iterate whenever two participants disagree on data order; (L3) raw two-tensor accesses (Copy, Float32/64Engine.Add) and row-major-only kernels (ReduceFirst/ReduceLast) are conditioned on the data order; (L4) exporters into row-major formats consult it; (LB) BLAS gateways derive leading dimensions from each operand's order; (T4) stride routines are selected by order in calcStrides and Transpose; (S10) the two stride calculators are one recurrence run in opposite directions; (S11) whoever flips the column-major bit recomputes the strides; (S12) AP.S picks the outermost axis by data order and marks column-major slices non-contiguous; (K3/K1arms) the typed arms of the BLAS gateways agree with each other (an operand swap in one precision is reported); (LC/LF) new raw copies / flat element loops must be layout-guarded and (LF) order-aware. Several of these fail on the pinned tree and are listed as known findings (17-19, 21, 40, 41). " +
-			"Not decided: that the BLAS flag mapping is right for column-major; block-size arithmetic of stack/concat under column-major (seed R2C16b is not caught); StackDense order agreement.",
+		Explain: "Decides: (L0) IsColMajor/IsRowMajor/HasSameOrder are what they claim and prepDataVV/VS/SV/Unary iterate whenever two participants disagree on data order; (L3) raw two-tensor accesses (Copy, Float32/64Engine.Add) and row-major-only kernels (ReduceFirst/ReduceLast) are conditioned on the data order; (L4) exporters into row-major formats consult it; (LB) BLAS gateways derive leading dimensions from each operand's order; (LD) every argument of every BLAS call is the one the operands' and the result's data order and lazy-transpose state require (all 32 layout cases of MatMul, 4 of MatVecMul, Outer, Inner); (T4) stride routines are selected by order in calcStrides and Transpose; (S10) the two stride calculators are one recurrence run in opposite directions; (S11) whoever flips the column-major bit recomputes the strides; (S12) AP.S picks the outermost axis by data order and marks column-major slices non-contiguous; (K3/K1arms) the typed arms of the BLAS gateways agree with each other (an operand swap in one precision is reported); (LC/LF) new raw copies / flat element loops must be layout-guarded and (LF) order-aware. Several of these fail on the pinned tree and are listed as known findings (17-19, 21, 40, 41). " +
+			"Not decided: block-size arithmetic of stack/concat under column-major (seed R2C16b is not caught); StackDense order agreement.",
 		Run: func(rc *rules.RC) {
 			rules.L0(rc, nil)
 			rules.LGuards(rc, "C16")
+			rules.LD(rc, 40)
 			rules.LC(rc, 18)
 			rules.LF(rc, 20)
 			rules.T4(rc)
